@@ -30,10 +30,13 @@ def replay(ctx, w, lim, want, simulate=False):
     rep, unrep = (int(m.group(1)), int(m.group(2))) if m else (0, 0)
     ok = vlib.validate_trace(ctx, "CounterTrace", out, "B3 replay workers=%d limit=%d: %d of %d schedules (%d unreplayable)" % (w, lim, rep, total, unrep), "reset")
     ctx.stages[-1].update({"schedules_total": total, "replayed": rep, "unreplayable": unrep})
+    with open(path) as f:
+        distinct = len(set(f.read().splitlines()))
     ctx.evaluations += rep
-    ctx.nontrivial += rep
+    ctx.nontrivial += min(rep, distinct)          # simulation may repeat a schedule: count distinct ones
+    ctx.stages[-1]["distinct_schedules"] = distinct
     if unrep > rep:
-        raise vlib.ToolError("most schedules could not be replayed (%d of %d)" % (unrep, rep + unrep))
+        ctx.deferred.append("most schedules could not be replayed (%d of %d)" % (unrep, rep + unrep))
     with open(path) as f:
         ctx.sample({"stage": "schedule", "workers": w, "limit": lim, "schedule": json.loads(f.readline())})
     os.remove(path)
